@@ -183,8 +183,8 @@ package plot
 //@   ensures [dispatched-by-attack-name] has(p.series, r.Attack) && p.series[r.Attack] != nil
 //@   ensures [other-attacks-keep-their-series] forall a string :: a != r.Attack ==> has(p.series, a) == old(has(p.series, a)) && p.series[a] == old(p.series[a])
 
-// What the plot command needs from the rest of the API (thin, trusted: their bodies - option closures,
-// HTML templating, tsz.Finish - are not modelled).
+// What the plot command needs from the rest of the API: the option constructors return non-nil options
+// (their closures, New, Close and WriteTo have their own contracts further down).
 //@ func Title
 //@   property C17
 //@   ensures result != nil
